@@ -120,21 +120,27 @@ theorem convNamed_typing {n x : String} (hn : comps n = ["typing", x])
   simp only [hb]
   rw [if_neg ha]
 
+theorem ne_of_not_contains {l : List String} {x y : String} (h : l.contains x = false) (hy : y ∈ l) :
+    x ≠ y := by
+  intro e
+  subst e
+  have : l.contains x = true := List.contains_iff_mem.2 hy
+  rw [this] at h
+  exact absurd h (by simp)
+
 theorem typingBanned_facts {x : String} (h : typingBanned.contains x = false) :
     typingToBuiltin.lookup x = none ∧ x ≠ "Any" ∧ x ≠ "Optional" ∧ x ≠ "Union" ∧ x ≠ "Intersection" ∧
-    x ≠ "NoneType" ∧ x ≠ "nothing" ∧ x ≠ "Final" ∧ x ≠ "TypeAlias" ∧ x ≠ "Tuple" := by
-  unfold typingBanned at h
-  simp only [List.contains_cons, List.contains_nil, Bool.or_false, Bool.or_eq_false_iff,
-    beq_eq_false_iff_ne, ne_eq] at h
-  obtain ⟨h1, h2, h3, h4, h5, h6, h7, h8, h9, h10, h11, h12, h13, h14, h15⟩ := h
-  refine ⟨?_, h7, h8, h9, h10, h11, h15, h12, h13, h3⟩
+    x ≠ "NoneType" ∧ x ≠ "nothing" ∧ x ≠ "Final" ∧ x ≠ "TypeAlias" ∧ x ≠ "Tuple" ∧ x ≠ "tuple" := by
+  have n := fun (y : String) (hy : y ∈ typingBanned) => ne_of_not_contains h hy
+  refine ⟨?_, n _ (by decide), n _ (by decide), n _ (by decide), n _ (by decide), n _ (by decide),
+    n _ (by decide), n _ (by decide), n _ (by decide), n _ (by decide), n _ (by decide)⟩
   unfold typingToBuiltin
-  have b1 : (x == "List") = false := by simpa using h1
-  have b2 : (x == "Dict") = false := by simpa using h2
-  have b3 : (x == "Tuple") = false := by simpa using h3
-  have b4 : (x == "Set") = false := by simpa using h4
-  have b5 : (x == "FrozenSet") = false := by simpa using h5
-  have b6 : (x == "Type") = false := by simpa using h6
+  have b1 : (x == "List") = false := by simpa using n "List" (by decide)
+  have b2 : (x == "Dict") = false := by simpa using n "Dict" (by decide)
+  have b3 : (x == "Tuple") = false := by simpa using n "Tuple" (by decide)
+  have b4 : (x == "Set") = false := by simpa using n "Set" (by decide)
+  have b5 : (x == "FrozenSet") = false := by simpa using n "FrozenSet" (by decide)
+  have b6 : (x == "Type") = false := by simpa using n "Type" (by decide)
   simp only [List.lookup, b1, b2, b3, b4, b5, b6]
 
 theorem mName_simple {g : GCtx} {n x : String} (hc : classify n = .simple x) (h : mName g n = true) :
@@ -191,7 +197,7 @@ theorem good_name {g : GCtx} (hg : GOK g) (ip : Bool) {n : String} (hf : fName g
     have hid := mName_typing hc hm
     obtain ⟨hn, hcn, hx⟩ := classify_typing hc
     have hb : typingBanned.contains x = false := by simpa using hf
-    obtain ⟨hlk, hAny, hOpt, hUn, hInt, hNT, hnothing, _, _, _⟩ := typingBanned_facts hb
+    obtain ⟨hlk, hAny, hOpt, hUn, hInt, hNT, hnothing, _, _, _, _⟩ := typingBanned_facts hb
     have hNone := identOK_ne_None hid
     have e1 : normName g.tps n = .named n := by unfold normName; rw [hc]
     have e2 : nameExpr n = .name x := by
